@@ -410,8 +410,8 @@ def stack_rules(ctx: Ctx, fi, loop, out: str) -> None:
         if isinstance(n, ast.Assign) and isinstance(n.targets[0], ast.Name) and n.targets[0].id == stack and isinstance(n.value, ast.Call) \
                 and call_method(n.value)[1] == "get":
             blk = _block_of(n)
-            stores = [x for x in blk if isinstance(x, ast.Assign) and isinstance(x.targets[0], ast.Subscript) and isinstance(x.value, ast.Name)
-                      and x.value.id == stack and x.lineno > n.lineno]
+            stores = sorted((x for y in blk for x in ast.walk(y) if isinstance(x, ast.Assign) and isinstance(x.targets[0], ast.Subscript) and isinstance(x.value, ast.Name)
+                             and x.value.id == stack and x.lineno > n.lineno), key=lambda x: x.lineno)
             muts = [x.lineno for y in blk for x in ast.walk(y) if isinstance(x, ast.Call) and isinstance(x.func, ast.Attribute)
                     and x.func.attr in ("append", "pop", "insert", "remove") and isinstance(x.func.value, ast.Name) and x.func.value.id == stack and x.lineno > n.lineno]
             first_mut = min(muts, default=None)
